@@ -213,6 +213,8 @@ def plan(S, prop, mode, tier, avoid):
                   "scalar_q": chance(r, 0.1), "c": c}
             if chance(r, 0.06):
                 op["rty"] = "f4"
+            if chance(r, 0.06):
+                op["aslist"] = pick(r, ["list", "tuple"])
             if prop == "C15":
                 op["pra"] = present.draw(r)
                 op["pdec"] = present.draw(r)
@@ -568,7 +570,12 @@ def do_match(run, op, M, htm, root, judge, c15):
         else:
             for _nm, g in gs:
                 run.fault("presented_" + g["kind"])
-    kw = {"maxmatch": maxmatch}
+    if op.get("aslist") and not c15 and "pra" not in op and isinstance(a_ra, np.ndarray) and n1 <= 200:
+        # the coordinates handed over as plain Python lists / tuples of floats
+        a_ra = a_ra.tolist() if op["aslist"] == "list" else tuple(a_ra.tolist())
+        a_dec = a_dec.tolist() if op["aslist"] == "list" else tuple(a_dec.tolist())
+        run.fault("coordinates_given_as_python_sequences")
+    kw = {"maxmatch": maxmatch}      # (a numpy integer here is refused by the SWIG wrapper with a TypeError: a limitation, not a C12 matter)
     stale = False
     if sink == "file":
         kw["file"] = path
